@@ -216,6 +216,17 @@ func genCase(rng *rand.Rand, n int, seed int64, pf Profile) *CaseDesc {
 				p.Memoize = true
 				p.Cacheable = true
 			}
+			if (p.Memoize && chance(rng, 0.5)) || chance(rng, 0.05) {
+				// three (sometimes four) inputs: the boundary of the smallest memo key array (cache.go in3)
+				from := avail
+				if static {
+					from = staticAvail
+				}
+				want := 3 + rng.Intn(2)*rng.Intn(2)
+				for tries := 0; len(p.In) < want && tries < 12 && len(from) > 0; tries++ {
+					p.In = uniq(append(p.In, pick(rng, from)))
+				}
+			}
 			if chance(rng, 0.03) || (p.Cacheable && chance(rng, 0.12)) {
 				p.NotCacheable = true
 			}
@@ -275,8 +286,16 @@ func genCase(rng *rand.Rand, n int, seed int64, pf Profile) *CaseDesc {
 			case 2:
 				p.Shun = true
 			case 3:
-				if len(p.Out) > 0 && p.Kind != "wrap" && p.Out[0] != cTE {
-					p.MustConsume = []int{p.Out[0]}
+				if p.Kind != "wrap" {
+					// MustConsume may be given for several of the produced types (nested annotations)
+					for _, o := range p.Out {
+						if o != cTE && (len(p.MustConsume) == 0 || chance(rng, 0.5)) {
+							p.MustConsume = append(p.MustConsume, o)
+						}
+					}
+					if len(p.Out) > 0 && p.Out[0] == cTE && len(p.MustConsume) > 0 && chance(rng, 0.5) {
+						p.MustConsume = nil // as before: nothing when the first result is the TerminalError
+					}
 				}
 			case 4:
 				p.NonFinal = chance(rng, pf.PNonFinal*5)
@@ -325,6 +344,53 @@ func genCase(rng *rand.Rand, n int, seed int64, pf Profile) *CaseDesc {
 	if chance(rng, pf.PRefl) {
 		fin.Refl = true
 	}
+	ifaceOf := func(t int) int {
+		switch t {
+		case 5:
+			return cI0
+		case 6:
+			return pick(rng, []int{cI0, cI1})
+		case 7:
+			return cI1
+		}
+		return t
+	}
+	// returned concrete values may be received as an interface further up when their provider is Loose
+	looseReturns := func(p *ProvDesc) {
+		if !useIface || !chance(rng, 0.6) {
+			return
+		}
+		for _, o := range p.Out {
+			if o >= 5 && o <= 7 {
+				p.Loose = uniq(append(p.Loose, ifaceOf(o)))
+				if chance(rng, 0.7) {
+					// nject counts a returned value as consumed only by receivers of exactly its type
+					// (include.go usedByDetail is keyed on the requested type): without this the chain
+					// rarely binds when the only receiver asks for the interface
+					p.ConsOpt = uniq(append(p.ConsOpt, o))
+				}
+			}
+		}
+	}
+	looseReturns(fin)
+	strayConsOpt := func(p *ProvDesc) {
+		// ConsumptionOptional for a type the provider returns and/or for one it does not return
+		if !chance(rng, pf.PConsOpt) {
+			return
+		}
+		if len(p.Out) > 0 && chance(rng, 0.5) {
+			t := pick(rng, p.Out)
+			if t == cTE {
+				t = cError
+			}
+			p.ConsOpt = append(p.ConsOpt, t)
+		}
+		if chance(rng, 0.7) {
+			p.ConsOpt = append(p.ConsOpt, pick(rng, append(cloneInts(plain), cError)))
+		}
+		p.ConsOpt = uniq(p.ConsOpt)
+	}
+	strayConsOpt(fin)
 	c.Provs = append(c.Provs, fin)
 	normalizeClusters(c)
 
@@ -338,7 +404,16 @@ func genCase(rng *rand.Rand, n int, seed int64, pf Profile) *CaseDesc {
 				pending = append(pending, cError)
 			}
 		case "wrap":
-			recv := subset(rng, pending, 0.6)
+			recv0 := subset(rng, pending, 0.6)
+			recv := cloneInts(recv0)
+			if useIface {
+				for q, t := range recv {
+					if t >= 5 && t <= 7 && chance(rng, 0.4) {
+						recv[q] = ifaceOf(t)
+					}
+				}
+				recv = uniq(recv)
+			}
 			p.IOut = recv
 			var rets []int
 			for _, t := range recv {
@@ -352,10 +427,19 @@ func genCase(rng *rand.Rand, n int, seed int64, pf Profile) *CaseDesc {
 					rets = append(rets, t)
 				}
 			}
+			if useIface && chance(rng, 0.35) {
+				// another concrete type that implements the interfaces: receivers further up that ask for
+				// the interface then have two Loose candidates at different distances
+				t := pick(rng, []int{5, 6, 7})
+				if !contains(pending, t) {
+					rets = append(rets, t)
+				}
+			}
 			p.Out = uniq(rets)
-			for _, t := range recv {
+			for _, t := range recv0 {
 				pending = remove(pending, t)
 			}
+			looseReturns(p)
 			for _, t := range p.Out {
 				if !contains(pending, t) {
 					pending = append(pending, t)
@@ -364,7 +448,19 @@ func genCase(rng *rand.Rand, n int, seed int64, pf Profile) *CaseDesc {
 			if chance(rng, pf.PConsOpt) && len(p.Out) > 0 {
 				p.ConsOpt = []int{p.Out[0]}
 			}
+			strayConsOpt(p)
 		}
+		if p.Kind == "inj" && contains(p.Out, cTE) {
+			strayConsOpt(p)
+		}
+	}
+	if useIface {
+		for q, t := range pending {
+			if t >= 5 && t <= 7 && chance(rng, 0.3) {
+				pending[q] = ifaceOf(t)
+			}
+		}
+		pending = uniq(pending)
 	}
 	if chance(rng, 0.9) {
 		c.InvOut = cloneInts(pending)
